@@ -182,6 +182,40 @@ def _r2_instance_memos(ctx, repo):
                 ctx.check(not missing, "R2", m, st, q, st, f"instance memo `{cache_text}` of {q}: the key determines the stored value",
                           f"`{short(st, 60)}` memoises on the object under a key that does not determine the value: it depends on {sorted(missing)} "
                           f"(a reused driver returns what an earlier call with other inputs computed)")
+    # attribute memo: `cached = self.A; if cached is not None and <cond>: return cached; ...; self.A = value; return value` -- the condition is the key
+    for m in repo.modules("seqm"):
+        for q, f in m.functions.items():
+            if "." not in q or not f.args.args or f.args.args[0].arg != "self":
+                continue
+            stores = [st for st in ast.walk(f) if isinstance(st, ast.Assign) and len(st.targets) == 1 and isinstance(st.targets[0], ast.Attribute)
+                      and norm(st.targets[0].value) == "self" and m.qualname_of(st) == q]
+            for st in stores:
+                attr = "self." + st.targets[0].attr
+                aliases = {attr} | {a.targets[0].id for a in ast.walk(f) if isinstance(a, ast.Assign) and len(a.targets) == 1 and isinstance(a.targets[0], ast.Name)
+                                    and norm(a.value) in (attr, f"getattr(self, '{st.targets[0].attr}', None)")}
+                for r in ast.walk(f):
+                    if not (isinstance(r, ast.Return) and r.value is not None and norm(r.value) in aliases and m.qualname_of(r) == q):
+                        continue
+                    from ..guards import controlling as _ctl
+                    conds = [a for a, pol, _ in _ctl(m, r, stop=f) if pol and any(al in norm(a) for al in aliases)]
+                    if not conds:
+                        continue
+                    n += 1
+                    test = conds[0] if len(conds) == 1 else ast.BoolOp(op=ast.And(), values=conds)
+                    # the cached object itself appears in the key only as the thing compared against: its occurrences are not inputs
+                    class _Strip(ast.NodeTransformer):
+                        def visit_Name(s_, x_):
+                            return ast.copy_location(ast.Constant(value=None), x_) if x_.id in aliases else x_
+
+                        def visit_Attribute(s_, x_):
+                            return ast.copy_location(ast.Constant(value=None), x_) if norm(x_) == attr else s_.generic_visit(x_)
+                    import copy as _copy
+                    key = _Strip().visit(_copy.deepcopy(test))
+                    missing = _memo_missing(m, f, st, key, attr)
+                    missing -= set(aliases)
+                    ctx.check(not missing, "R2", m, r, q, r, f"{q}: the value kept in `{attr}` is returned only under a condition that determines it",
+                              f"{q}: `{short(r, 40)}` hands out the value kept in `{attr}` by an earlier call whenever `{short(test, 70)}` holds, but that value depends on {sorted(missing)}, "
+                              f"which the condition does not determine (it compares at most shapes / devices): a reused driver returns what an earlier call with other inputs computed")
     return n
 
 
